@@ -21,6 +21,10 @@ inductive Err where
   | unpackError           -- `bitstruct.unpack`: not enough data
   | assertionError
   | zeroDivisionError
+  | odxError              -- `odxraise(msg)` / `odxraise(msg, OdxError)` in strict mode
+  | encodeError           -- `odxraise(msg, EncodeError)`
+  | decodeError           -- `odxraise(msg, DecodeError)`
+  | foreign               -- any other exception of a called function that is modelled by hand (see `call`)
 deriving Repr, DecidableEq, Inhabited
 
 abbrev M := Except Err
@@ -35,6 +39,12 @@ instance {α : Type} [DecidableEq α] : DecidableEq (M α)
 def unwrap {α : Type} : Option α → M α
   | some a => pure a
   | none => throw .typeError
+
+/-- a call to a function that is NOT translated but stands for a hand-written model function (the spec of the translation
+    names it): its value is the model's value, its exception the model's error class embedded by `f` -/
+def call {ε α : Type} (f : ε → Err) : Except ε α → M α
+  | .ok a => pure a
+  | .error e => throw (f e)
 
 /-- `xs[i]` for `i ≥ 0` -/
 def getItem {α : Type} (xs : List α) (i : Nat) : M α :=
